@@ -5,6 +5,10 @@ HERE = os.path.dirname(os.path.dirname(os.path.abspath(__file__)))
 ALL = ["C%02d" % i for i in range(1, 21)]
 # id -> (technique, level text, level note, design ref)
 CHECKS = {
+ "C01": ("bounded-exhaustive enumeration of real sessions: file matrix (size x content family x prior-destination variant) x all 512 option subsets x 5 arrangements, plus source-form and long-name parts; every destination file compared with the reference update rule",
+         "every option subset of {-l,-p,-t,-g,-o,-D,-c,-I,-a}+-r in every arrangement (daemon pull/push, local, library pull/push) runs a real in-process session over a tree containing the full product of boundary sizes, content families and 20 prior-destination variants; destination bytes are compared per file with the size+mtime / -c / -I rule; source forms (dir, single file, two sources, no -r) and boundary sizes up to 3 MiB (thorough) are separate parts",
+         "trusts the tree model (tmpfs lstat/readfile), runs as root, in-memory transport with unbounded buffering (transport behaviour is C18's subject); known findings listed in KNOWN_FINDINGS.txt",
+         "DESIGN.md §5 C01"),
  "C19": ("bounded-exhaustive explicit-state enumeration of (ACL rule list, client address) pairs, each decided by a real daemon handshake and compared with an independent first-match evaluator",
          "every rule list of length <=3 over an 18-rule (quick) / 28-rule (thorough) pool x 16/26 boundary addresses is executed against the real HandleDaemonConn; grant/refusal, absence of any byte after @ERROR and actual delivery of module data after OK are compared with a reference evaluator",
          "trusts the reference evaluator (netip bit-prefix comparison) and that the daemon names connections by net.Conn.RemoteAddr().String(); key material, DNS names are outside the space",
